@@ -1,6 +1,6 @@
 From Coq Require Import ZArith List.
 From V Require Import Base.Wire.
-From V Require Check.C12 Check.C10 Check.C13 Check.C20 Check.C01 Check.C19 Check.C06 Check.C14 Check.Attack Check.C05 Check.C18 Check.C17 Check.C07 Check.C11.
+From V Require Check.C12 Check.C10 Check.C13 Check.C20 Check.C01 Check.C19 Check.C06 Check.C14 Check.Attack Check.C05 Check.C18 Check.C17 Check.C07 Check.C11 Check.C16.
 Import ListNotations.
 Open Scope Z_scope.
 
@@ -21,6 +21,7 @@ Definition checker (prop : Z) : option (rd verdict) :=
   else if prop =? 8 then Some C07.check_c08
   else if prop =? 9 then Some C07.check_c09
   else if prop =? 11 then Some C11.check_c11
+  else if prop =? 16 then Some C16.check_c16
   else if prop =? 2 then Some Attack.check_C02
   else if prop =? 3 then Some Attack.check_C03
   else if prop =? 4 then Some Attack.check_C04
